@@ -100,8 +100,8 @@ RevSize(b) ==
 
 \* ---------------------------------------------------------------- values
 \* constructors (value records; see module comment)
-VBool(b)        == [k |-> "bool", v |-> b]
-VByte(n)        == [k |-> "byte", v |-> n]
+VBool(b)        == [k |-> "bool", b |-> b]
+VByte(n)        == [k |-> "byte", n |-> n]
 VInt(k, neg, m) == [k |-> k, neg |-> neg, mag |-> m]
 VUint(k, m)     == [k |-> k, mag |-> m]
 VF32(bytes)     == [k |-> "float32", bits |-> bytes]
@@ -163,8 +163,8 @@ EncodeMsgOf(tags, encs) ==
 EncodeStructOf(encs) == LET data == Flatten(encs) IN data \o VarintN(Len(data)) \o <<TStruct>>
 
 EncodeScalar(v) ==
-    CASE v.k = "bool"    -> <<IF v.v THEN TTrue ELSE TFalse>>
-      [] v.k = "byte"    -> <<v.v, TByte>>
+    CASE v.k = "bool"    -> <<IF v.b THEN TTrue ELSE TFalse>>
+      [] v.k = "byte"    -> <<v.n, TByte>>
       [] v.k \in IntKinds  -> Varint8(ZigZag(v.neg, v.mag)) \o <<IntCode(v.k)>>
       [] v.k \in UintKinds -> Varint8(v.mag) \o <<UintCode(v.k)>>
       [] v.k = "float32" -> v.bits \o <<TFloat32>>
